@@ -161,6 +161,12 @@ class Pair:
             "issuer": ISS,
             "keys": {"uri_path": "jwks.json", "key_defs": SIG_KEYDEFS + ENC_KEYDEFS,
                      "private_path": os.path.join(KEYDIR, "op.json"), "read_only": False},
+            # stated explicitly: the merged endpoint `_supports` is last-endpoint-wins, and the pushed
+            # authorization endpoint (configured after the OIDC authorization endpoint) says ["code"]
+            "response_types_supported": ["code", "id_token", "code id_token"],
+            "scopes_supported": ["openid", "profile", "email", "address", "phone", "offline_access"],
+            "encrypt_id_token_supported": True,
+            "encrypt_userinfo_supported": True,
         }
         conf = srv.op_conf(jwt_access=c["at_jwt"], jwt_refresh=c["rf_jwt"], oidc=True, authz=AUTHZ,
                            add_ons=add_ons or None, extra=extra,
